@@ -18,6 +18,7 @@ from common import Check
 
 PID = "C12"
 WORKERS = int(os.environ.get("VERIF_WORKERS", "8"))
+IMPL_TIMEOUT = int(os.environ.get("VERIF_IMPL_TIMEOUT", "2400"))   # per worker process; every simulation has its own CPU / step guard
 
 
 # ------------------------------------------------------------------ running both sides
@@ -26,7 +27,7 @@ def run_impl_jobs(jobs, script="impl_c12.py"):
     chunks = [ch for ch in chunks if ch]
     out = {}
     with cf.ThreadPoolExecutor(len(chunks) or 1) as ex:
-        for r in ex.map(lambda ch: common.run_impl(script, dict(jobs=ch), timeout=3000), chunks):
+        for r in ex.map(lambda ch: common.run_impl(script, dict(jobs=ch), timeout=IMPL_TIMEOUT), chunks):
             for x in r["results"]:
                 out[x["id"]] = x
     return out
@@ -461,6 +462,44 @@ def fam_silent(quick):
                             want = ("scenarioComplete", s0 + n + m)
                             times = list(range(s0, s0 + n))
                         out.append((f"silent {level} {end} n={n} s0={s0} tc={tau_k} {cont_k}", p, tab, ts, H, ("silent", want, {f"r{100 * k}": times})))
+    # residual shapes (finding F29): the recorded sub-scenario stops on its own and its parent's `_invokeInner` loop never
+    # gets to filter its list: (c) a later sibling executes `terminate simulation` in the same step; (d) it is stopped by
+    # `terminate` in its monitor and the top-level scenario reaches its time limit in the next step (directly above it or
+    # one level up).  Documented: samples exactly for the steps it executed.
+    H = 12
+    tab = [[False] * (H + 2)] * 3
+    sib = dict(pre=[], inv=[], limit=None, termwhen=[], monitors=[], reqs=[], records=[], termsim=[])
+    for n in (1, 2):
+        for end in ("limit", "compose", "terminate"):
+            for order in ("before", "after"):
+                p = cp.empty_program(1)
+                rec = dict(pre=[], inv=[], limit=None, termwhen=[], monitors=[], compose=list(forever), reqs=[], records=[100], termsim=[])
+                if end == "limit":
+                    rec["limit"] = (n, "steps")
+                elif end == "compose":
+                    rec["compose"] = [("WT",)] * n
+                else:
+                    rec["compose"] = [("WT",)] * n + [("MK", 90), ("TE",)]
+                ender = dict(sib, compose=[("WT",)] * n + [("MK", 91), ("TS",)])
+                p["scenarios"][0]["compose"] = [("DS", [1, 2])]
+                p["scenarios"] += [rec, ender] if order == "before" else [ender, dict(rec, records=[200])]
+                # the recorded scenario executed steps 0..n-1; stepped before the sibling that ends the simulation at step n it
+                # has stopped in that step (no sample at n); listed after it, it is still running when Main stops (sample at n)
+                key = "r100" if order == "before" else "r200"
+                times = list(range(0, n)) if order == "before" else list(range(0, n + 1))
+                out.append((f"silent sibling-terminate-simulation {end} n={n} {order}", p, tab, 1, H, ("silent", ("scenarioComplete", n), {key: times})))
+        for depth in (1, 2):
+            p = cp.empty_program(1)
+            p["monitors"] = [[("WT",)] * (n - 1) + [("MK", 90), ("TE",)]]
+            k = depth
+            rec = dict(pre=[], inv=[], limit=None, termwhen=[], monitors=[0], compose=list(forever), reqs=[], records=[100 * k], termsim=[])
+            p["scenarios"][0]["limit"] = (n, "steps")
+            p["scenarios"][0]["compose"] = [("DS", [1]), ("WT",), ("WT",)]
+            if depth == 2:
+                p["scenarios"].append(dict(sib, compose=[("DS", [2]), ("WH", True, [("WT",)])]))
+            p["scenarios"].append(rec)
+            out.append((f"silent monitor-terminate-then-parent-limit n={n} depth={depth}", p, tab, 1, H,
+                        ("silent", ("scenarioComplete", n), {f"r{100 * k}": list(range(0, n))})))
     return out
 
 
@@ -480,7 +519,22 @@ def compare(c, name, p, src, run, obs, mod, fam_expect=None, run_index=0, histor
                     dict(case=case, first_attempt=obs["first_attempt"], previous_run_top_level_guard_failed=prev_guard_failed))
         ok = False
     shape27 = cp.f27_shape(p, run_index)
-    if obs["kind"] == "hang" or mod["kind"] in ("stuck", "error", "driver-error"):
+    if obs["kind"] == "hang" and mod["kind"] == "stuck":
+        # the GENERATED program spins without yielding (e.g. an interrupt handler whose condition stays true and that takes
+        # no action): the model runs out of fuel, the implementation was stopped by the per-simulation CPU / step guard.
+        # Nothing to compare: skipped, with the reason in the evidence.
+        c.hist("skipped:generated-program-spins(model=fuel-exhausted,impl=cpu-guard)")
+        skipped = c.cov.setdefault("skipped_cases", [])
+        if len(skipped) < 5:
+            skipped.append(dict(name=name, reason="program never yields under this table: model out of fuel, implementation stopped by the guard", src=src, tab=run.get("tab")))
+        return True
+    if obs["kind"] == "hang":
+        # the model completes this simulation: the implementation is spinning (or needs > 3 CPU seconds / > 64 steps for it)
+        c.violation("hang", f"the implementation does not finish a simulation the DynCore model completes ({mod['kind']} at {mod.get('time')}): {obs.get('msg')}",
+                    dict(case=case, impl={k: obs.get(k) for k in ("kind", "msg")}, model={k: mod.get(k) for k in ("kind", "time", "traj", "actions")},
+                         impl_events=obs["events"][:200], model_events=mod.get("events", [])[:200]))
+        return False
+    if mod["kind"] in ("stuck", "error", "driver-error"):
         c.violation("harness", f"case outside the fragment: impl={obs['kind']} model={mod['kind']}", dict(case=case, impl=obs, model=mod))
         return False
     keys = ["kind", "events"]
@@ -495,6 +549,15 @@ def compare(c, name, p, src, run, obs, mod, fam_expect=None, run_index=0, histor
             n = next((i for i in range(min(len(a), len(b))) if a[i] != b[i]), min(len(a), len(b)))
             first = dict(index=n, impl=a[n:n + 3], model=b[n:n + 3])
         extra = bool(first and first["impl"] and first["impl"][0][0] in ("R", "TC") and first["impl"][0][1] >= 100)
+        shape29 = cp.f29_shape(p, obs["events"], first["index"]) if extra else None
+        if shape29:
+            # residual of F27 (finding F29): a sub-scenario that stopped on its own is still listed by its parent
+            c.violation("stale-subscenario", f"a record / `terminate simulation when` of a sub-scenario that is no longer running was evaluated "
+                        f"({first['impl'][0]} at event {first['index']}; shape {shape29})",
+                        dict(case=case, f29_shape=shape29, impl_extra_sub_event=True, first_event_difference=first,
+                             impl={k: obs.get(k) for k in ("kind", "reason", "time", "records")}, model={k: mod.get(k) for k in ("kind", "time")},
+                             impl_events=obs["events"], model_events=mod["events"]))
+            return False
         if shape27 and extra:
             # a stopped sub-scenario's record / condition evaluated: finding F27 (the other oracles would only repeat it)
             c.violation("stale-subscenario", f"a record / `terminate simulation when` of a sub-scenario that is no longer running was evaluated "
@@ -583,14 +646,14 @@ def main():
             # a history of three simulations from one compiled scenario: the scene again, then a fresh scene
             for scene in ("new", "same", "new"):
                 cases.append((name, p, cp.program_src(p), dict(tab=tab, perms=[], max_steps=H, timestep=ts, scene=scene), expect))
-        nprog = int(os.environ.get('VERIF_C12_N', 160 if quick else 6000))
+        nprog = int(os.environ.get('VERIF_C12_N', 160 if quick else 3000))     # compiling (parsing) a program costs ~100x one simulation
         for n in range(nprog):
             g = cp.Gen(random.Random(rng.getrandbits(64)))
             p, ts = g.program()
             src = cp.program_src(p)
             agents = [i for i, b in enumerate(p["objects"]) if b is not None]
             allp = [list(x) for x in itertools.permutations(agents)]
-            nruns = 4
+            nruns = 4 if quick else 6
             for r in range(nruns):
                 tab = g.table()
                 if n % 4 == 0 and len(allp) > 1:
@@ -604,8 +667,8 @@ def main():
                 # same scene or a fresh one, with their own time step (when durations are in seconds), step limit,
                 # table (guard outcomes) and raiseGuardViolations
                 rts = ts if (r == 0 or not g.seconds) else g.rng.choice([0.5, 0.1, 0.25, 2, 1])
-                cases.append((f"random-{n}-{r}", p, src, dict(tab=tab, perms=perms, max_steps=ms, timestep=rts, scene=("same" if r == 1 else "new"),
-                                                               raise_gv=(r != 3)), None))
+                cases.append((f"random-{n}-{r}", p, src, dict(tab=tab, perms=perms, max_steps=ms, timestep=rts, scene=("same" if r % 4 == 1 else "new"),
+                                                               raise_gv=(r % 4 != 3)), None))
 
     # which behaviour does the tree have for `terminate` in a monitor of a sub-scenario?  (quirk switch
     # of the model; the oracle reports the undocumented behaviour whenever a generated case meets it)
